@@ -46,13 +46,13 @@ EXHAUSTIVE = {"quick": False, "thorough": False}
 EXHAUSTIVE_PART = "text-map formats: every literal fixture map of armi/utils/tests/test_asciimaps.py is parsed and re-rendered by the independent renderer and by armi"
 FLOORS = {
     "quick": {"placement": 1500, "block": 2500, "component": 12000, "dimension": 20000, "link": 4000, "massfrac": 8000, "density": 6000,
-              "matmod": 150, "custom-isotopics": 100, "pin-lattice": 100, "flags": 12000, "map.fixture": 8, "map.read-mine": 200,
-              "map.text-roundtrip": 200, "map.contents-roundtrip": 200, "grid.save-roundtrip": 100, "determinism": 30, "invalid.refused": 30},
+              "matmod": 150, "custom-isotopics": 100, "pin-lattice": 100, "flags": 12000, "map.fixture": 8, "map.read-mine": 250,
+              "map.text-roundtrip": 180, "map.contents-roundtrip": 120, "grid.save-roundtrip": 150, "determinism": 30, "invalid.refused": 30},
     "thorough": {"placement": 30000, "block": 50000, "component": 250000, "dimension": 400000, "link": 80000, "massfrac": 160000, "density": 120000,
-                 "matmod": 3000, "custom-isotopics": 2000, "pin-lattice": 2000, "flags": 250000, "map.fixture": 8, "map.read-mine": 4000,
-                 "map.text-roundtrip": 4000, "map.contents-roundtrip": 4000, "grid.save-roundtrip": 2000, "determinism": 500, "invalid.refused": 450},
+                 "matmod": 3000, "custom-isotopics": 2000, "pin-lattice": 2000, "flags": 250000, "map.fixture": 8, "map.read-mine": 2500,
+                 "map.text-roundtrip": 1800, "map.contents-roundtrip": 1200, "grid.save-roundtrip": 2000, "determinism": 500, "invalid.refused": 450},
 }
-TIMEOUT = {"quick": 600, "thorough": 3600}
+TIMEOUT = {"quick": 900, "thorough": 7200}
 ASSUMPTIONS = [
     "each material class's default mass-fraction table, its density(T) / linearExpansionPercent(T) functions, atomic weights and natural "
     "abundances of the nuclide directory are trusted as data (C19 judges them); the density oracle is applied only to materials whose "
@@ -676,6 +676,8 @@ def add_custom_isotopics(rng, spec):
                     iso["density"] = round(rng.uniform(.5, 19.0), rng.choice([2, 5, 9]))
             if custom_mat and (fmtk == "number densities" or "density" in iso):
                 c["material"] = "Custom"
+            elif (fmtk == "number densities" or "density" in iso) and rng.random() < .5:
+                c["Thot"] = c["Tinput"]  # the documented case: the density override is the density at the input temperature
             spec["custom isotopics"][iname] = iso
             c["isotopics"] = iname
 
@@ -1922,7 +1924,10 @@ def plan(tier, seed):
         out.append({"name": "cart%d" % k, "kind": "docs", "family": "cart", "n": 22 if q else 500})
     for k in range(2):
         out.append({"name": "rz%d" % k, "kind": "docs", "family": "rz", "n": 22 if q else 550})
-    out.append({"name": "maps", "kind": "maps", "n": 450 if q else 9000})
+    if q:
+        out.append({"name": "maps", "kind": "maps", "n": 900})
+    else:
+        out += [{"name": "maps%d" % k, "kind": "maps", "n": 3000} for k in range(3)]
     out.append({"name": "invalid0", "kind": "invalid", "n": 26 if q else 320, "offset": 0})
     out.append({"name": "invalid1", "kind": "invalid", "n": 26 if q else 320, "offset": 13})
     return out
